@@ -25,6 +25,12 @@ checks["C09"] = dict(cat="exploration", ref="§7 C09", engine="session", techniq
 checks["C11"] = dict(cat="exploration", ref="§7 C11", engine="steps", technique="deterministic simulation: seeded and delay-bounded statement-level scheduling of concurrent CallStep/CallSignal goroutines on one CallableSchema, compared call by call with a sequential reference on a fresh copy",
    text="2-6 goroutines issue step and signal calls for 1-3 run IDs (valid/invalid inputs, unknown IDs, handler misbehaviour, with/without initializer) under random/sticky/PCT schedules and a sweep that holds every statement of schema/step.go, schema.go and signal.go singly (and sampled pairs); oracles: initializer at most once per run ID, all handlers of a run see the same step data, distinct runs distinct data, handler invoked exactly as often and with the same argument as alone, same (outputID, data, error type) as alone, no panic.",
    note="Trusted: rewriter, synctest, shim mutex. The typed-error and input clauses are checked as the reference oracle of the same runs (the call made alone on a fresh copy); error text is not compared, only the outermost SDK error type.")
+checks["C12"] = dict(cat="exploration", ref="§7 C12", engine="pure", technique="deterministic simulation of the runtime's map iteration order and of call histories: every range-over-map / MapKeys site of the SDK is routed through a seam whose order is drawn from the seed; histories of operations on one schema instance are compared with fresh instances",
+   text="Generated scope schemas receive tape-drawn histories of 1-30 Unserialize/Validate/Serialize/ValidateCompatibility calls; each call is repeated under natural, drawn, reversed and rotated iteration orders (same verdict, equal results), its argument is deep-compared before/after, and the used instance is compared with a freshly built one (verdict, result, self-description).",
+   note="Trusted: the rewriter's map-order seam covers all 53 range-over-map and 8 MapKeys sites (counted in the evidence; maps inside third-party libraries are not reordered). Single goroutine; no scheduler is involved. Error text is not compared.")
+checks["C15"] = dict(cat="exploration", ref="§7 C15", engine="pure", technique="deterministic simulation of map iteration order on ValidateCompatibility between generated consumer/producer schema pairs",
+   text="RESTRICTED: decided = the verdict of consumer.ValidateCompatibility(producer) does not depend on map iteration order (natural, drawn, reversed, rotated orders on identical, rebuilt, single-feature-mutated and unrelated producers) and a verdict is returned (no panic). Reflexivity, compatibility with a schema rebuilt from its own description, and the must-reject rules are evaluated on the same pairs as side oracles.",
+   note="Not decided: termination on recursive schema pairs (a stack overflow there is a function of the pair alone; recursive recipes are excluded from the generator). Must-reject expectations are only attached to mutations of the root object. Trusted: map-order seam coverage as for C12.")
 not_yet = {
 }
 na = {
@@ -64,6 +70,7 @@ m = {
    {"name": "client", "path": "harness/engine_client.go", "serves_properties": ["C08", "C06"], "kind_free_text": "real atp client vs scripted v3/v1 server with byte-offset fault injection on the server stream (fault-free healthy transcripts serve C06)"},
    {"name": "hello", "path": "harness/engine_hello.go", "serves_properties": ["C10"], "kind_free_text": "real Client.ReadSchema vs scripted hello with structural mutations; first-use exercise of accepted schemas"},
    {"name": "steps", "path": "harness/engine_steps.go", "serves_properties": ["C11"], "kind_free_text": "concurrent CallStep/CallSignal on the real schema package under the seeded scheduler (no ATP)"},
+   {"name": "pure", "path": "harness/engine_pure.go", "serves_properties": ["C12", "C15"], "kind_free_text": "single-goroutine history and map-order simulation on the real schema package"},
    {"name": "server", "path": "harness/engine_server.go", "serves_properties": ["C07"], "kind_free_text": "real atp server vs scripted client with byte-offset fault injection on the client stream"},
    {"name": "session", "path": "harness/session.go", "serves_properties": ["C05", "C06"], "kind_free_text": "real atp client <-> real atp server over simulated pipes under the seeded scheduler (zzsimrt) inside a testing/synctest bubble"},
  ],
